@@ -36,3 +36,22 @@ func (c *PointerCodec) Write(w *WriteBuf, p unsafe.Pointer) {
 	}
 	c.Codec.Write(w, pp)
 }
+
+// zeroPointerCodec is the PointerCodec the codec builder uses. It differs in
+// what it writes for a nil pointer that is not wrapped by a union (a pointer
+// to a slice or map, or a schema without a null branch): the zero value of
+// the pointed-to type, where PointerCodec writes nothing and so corrupts the
+// stream.
+type zeroPointerCodec struct {
+	PointerCodec
+	// zero points to a zero value of the pointed-to type.
+	zero unsafe.Pointer
+}
+
+func (c *zeroPointerCodec) Write(w *WriteBuf, p unsafe.Pointer) {
+	pp := *(*unsafe.Pointer)(p)
+	if pp == nil {
+		pp = c.zero
+	}
+	c.Codec.Write(w, pp)
+}
